@@ -154,7 +154,9 @@ Definition struct_loop (f : nat) (o : ropts) (cfg : value) :=
                   | TStruct _ | TMap _ =>
                     match ft, x with
                     | TPtr _, GPtrNil => OutOfModel
-                    | _, _ => reify_merge_value f (o', th, []) ft x cfg
+                    | _, _ =>
+                      y <- reify_merge_value f (o', th, []) ft x cfg ;;
+                      _ <- run_validators (r_vo o) vts (view y) ;; Ok y
                     end
                   | TSlice _ | TArray _ _ => reify_merge_value f (o', th, vts) ft x cfg
                   | _ => Err ETypeMismatch ""
